@@ -366,6 +366,12 @@ q_number::q_number(const std::string &s, unsigned base) {
   if (res != 0) {
     CRAB_ERROR("q_number: invalid string in constructor", s);
   }
+  // mpq_set_str stores the fraction as written: GMP requires
+  // canonical form (positive denominator, no common factors).
+  if (mpz_sgn(mpq_denref(_n)) == 0) {
+    CRAB_ERROR("q_number: zero denominator in constructor", s);
+  }
+  mpq_canonicalize(_n);
 }
 
 q_number::q_number(const z_number &z) {
@@ -376,6 +382,12 @@ q_number::q_number(const z_number &z) {
 q_number::q_number(const z_number &num, const z_number &den) {
   mpz_init_set(mpq_numref(_n), num._n);
   mpz_init_set(mpq_denref(_n), den._n);
+  // comparisons and rounding assume GMP's canonical form (positive
+  // denominator, no common factors).
+  if (mpz_sgn(mpq_denref(_n)) == 0) {
+    CRAB_ERROR("q_number: zero denominator in constructor");
+  }
+  mpq_canonicalize(_n);
 }
 
 q_number q_number::from_mpq_t(mpq_t mp) {
